@@ -8,6 +8,7 @@ package main
 //  (b) oracle_impl: pint verdict vs rulefmt.Parse directly.
 
 import (
+	"bytes"
 	"context"
 	"fmt"
 	"math/rand"
@@ -24,6 +25,7 @@ import (
 	"gopkg.in/yaml.v3"
 
 	"github.com/cloudflare/pint/internal/checks"
+	"github.com/cloudflare/pint/internal/comments"
 	"github.com/cloudflare/pint/internal/parser"
 )
 
@@ -88,92 +90,6 @@ func c01NodeBits(n *yaml.Node) int {
 }
 
 // ---- known-finding class predicates (pint passes, Prometheus refuses) ----
-
-func ruleNodes(docs []parser.VerifDoc, f func(rule *yaml.Node)) {
-	for _, d := range docs {
-		walkForest(d.Node, map[*yaml.Node]bool{}, func(n *yaml.Node) {
-			if n.Kind != yaml.MappingNode {
-				return
-			}
-			for i := 0; i+1 < len(n.Content); i += 2 {
-				switch n.Content[i].Value {
-				case "record", "alert", "expr":
-					f(n)
-					return
-				}
-			}
-		})
-	}
-}
-
-// hasNullName: a rule whose `record:`, `alert:` or `expr:` value is null (~, null, empty).
-func hasNullName(docs []parser.VerifDoc) bool {
-	found := false
-	ruleNodes(docs, func(r *yaml.Node) {
-		for i := 0; i+1 < len(r.Content); i += 2 {
-			if (r.Content[i].Value == "record" || r.Content[i].Value == "alert" || r.Content[i].Value == "expr") && r.Content[i+1].ShortTag() == "!!null" {
-				found = true
-			}
-		}
-	})
-	return found
-}
-
-// hasNamelessGroup: an item of a `groups` sequence that is a mapping with neither `name` nor `rules`.
-func hasNamelessGroup(docs []parser.VerifDoc) bool {
-	found := false
-	for _, d := range docs {
-		walkForest(d.Node, map[*yaml.Node]bool{}, func(n *yaml.Node) {
-			if n.Kind != yaml.MappingNode {
-				return
-			}
-			for i := 0; i+1 < len(n.Content); i += 2 {
-				if n.Content[i].Value == "groups" && n.Content[i+1].Kind == yaml.SequenceNode {
-					for _, g := range n.Content[i+1].Content {
-						if g.Alias != nil {
-							g = g.Alias
-						}
-						if g.Kind != yaml.MappingNode {
-							continue
-						}
-						hasName, hasRules := false, false
-						for j := 0; j+1 < len(g.Content); j += 2 {
-							switch g.Content[j].Value {
-							case "name":
-								hasName = true
-							case "rules":
-								hasRules = true
-							}
-						}
-						if !hasName && !hasRules {
-							found = true
-						}
-					}
-				}
-			}
-		})
-	}
-	return found
-}
-
-// hasBadLimit: a group `limit:` tagged !!int that yaml.v3 cannot decode into a Go int.
-func hasBadLimit(docs []parser.VerifDoc) bool {
-	found := false
-	for _, d := range docs {
-		walkForest(d.Node, map[*yaml.Node]bool{}, func(n *yaml.Node) {
-			if n.Kind != yaml.MappingNode {
-				return
-			}
-			for i := 0; i+1 < len(n.Content); i += 2 {
-				v := n.Content[i+1]
-				if n.Content[i].Value == "limit" && v.Kind == yaml.ScalarNode && v.ShortTag() == "!!int" && c01NodeBits(v)&annIntDec == 0 {
-					found = true
-				}
-			}
-		})
-	}
-	return found
-}
 
 // hasNonAliasMerge: a `<<` merge key whose value is not an alias (inline mapping or a sequence of mappings):
 // pint's unpackNodes then skips that value AND every following key up to the next alias.
@@ -258,6 +174,8 @@ func modelledBlock(p probObs) bool {
 
 func runC01(args []string) int {
 	n := argInt(args, "--n", 300)
+	nCat := argInt(args, "--cat", 60)      // extra catalogue deviations beyond the core ones (-1 = all)
+	nStress := argInt(args, "--stress", 4) // random reader-stress files beyond one per boundary size
 	seed := seedFromEnv()
 	r := rand.New(rand.NewSource(seed))
 	rep := newReport("C01", seed)
@@ -284,6 +202,20 @@ func runC01(args []string) int {
 	gv := newDocGen(r, 0)
 	g1 := newDocGen(r, 0.04)
 	gm := newDocGen(r, 0.12)
+	for _, dev := range c01Catalogue(r, nCat) {
+		items = append(items, item{c01Render(dev), "catalogue:" + dev.op})
+		rep.hist("catalogue-slot:" + dev.slot)
+	}
+	for i := 0; i < len(c01BoundarySizes)+nStress; i++ {
+		size := c01BoundarySizes[i%len(c01BoundarySizes)]
+		if i >= len(c01BoundarySizes) {
+			size = pick(r, c01BoundarySizes) + r.Intn(3) - 1
+		}
+		content, desc := c01ReaderStress(r, gv, size, i < len(c01BoundarySizes) || r.Intn(2) == 0)
+		items = append(items, item{content, "reader-stress"})
+		rep.hist("reader-stress:" + desc[strings.Index(desc, ":")+1:])
+	}
+	n += len(items)
 	for len(items) < n {
 		switch r.Intn(10) {
 		case 0, 1:
@@ -308,7 +240,7 @@ func runC01(args []string) int {
 	for i, it := range items {
 		id := i + 1
 		content := []byte(it.content)
-		if strings.Contains(it.content, "# pint") {
+		if strings.Contains(it.content, "# pint") || len(comments.Parse(1, it.content)) > 0 {
 			rep.hist("skipped:pint-comment")
 			continue
 		}
@@ -321,6 +253,12 @@ func runC01(args []string) int {
 		model.NameValidationScheme = names
 		term, _, _, ps, _ := forestCase(id, content, parser.PrometheusSchema, names, c01ValueBits)
 		docs := lastDocs
+		if len(content) > 20000 {
+			term = "" // oracle only: the correspondence term would be dominated by the filler text
+		}
+		// glue (mask_id): without pint control comments the masking reader hands yaml.v3 exactly the file's bytes
+		through, _, rerr := parser.VerifReadThrough(content)
+		readerID := rerr == nil && bytes.Equal(through, content)
 		res := runPipeline(file, true, parser.PrometheusSchema, names, 30*time.Second)
 		os.Remove(file)
 		model.NameValidationScheme = names
@@ -345,22 +283,27 @@ func runC01(args []string) int {
 		rep.hist(fmt.Sprintf("pint-blocks=%v prom-accepts=%v", blockedAny, promOK))
 		rep.count(it.content, blockedAny || !promOK)
 		kept := map[string]any{"class": it.class, "content": it.content, "pint_blockers": blockers, "prom_errors": errStrings(perrs)}
+		if len(it.content) > 20000 {
+			delete(kept, "content")
+			kept["content_run_length_encoded"] = rleLong(it.content) // runs of >= 64 equal bytes written as «c*N»
+			kept["content_bytes"] = len(it.content)
+		}
 		if keepCases {
 			rep.Cases[fmt.Sprint(id)] = kept
 		}
 		// (b) the property as written
+		if !readerID {
+			rep.hist("reader-not-identity")
+		}
 		if !blockedAny && !promOK {
 			what := "pint (strict, default offline checks) reports no Bug/Fatal but rulefmt.Parse rejects the file: " + strings.Join(errStrings(perrs), "; ")
+			if !readerID {
+				what += fmt.Sprintf(" [the content reader delivered %d of %d bytes to the yaml decoder]", len(through), len(content))
+			}
 			known := ""
 			switch {
 			case anyTagKindMismatch(docs) || hasTagKindMismatch(docs):
 				known = "C01-tag-kind"
-			case hasNullName(docs):
-				known = "C01-null-name"
-			case hasBadLimit(docs):
-				known = "C01-limit-not-int"
-			case hasNamelessGroup(docs):
-				known = "C01-nameless-group"
 			case hasNonAliasMerge(docs):
 				known = "C01-merge-not-alias"
 			}
@@ -375,7 +318,11 @@ func runC01(args []string) int {
 		}
 		// (a) correspondence terms
 		if term == "" {
-			rep.hist("skipped:forest-too-large")
+			rep.hist("correspondence-skipped:forest-or-content-too-large")
+			if !readerID {
+				// keep the glue obligation visible to Coq even when the forest is not serialised
+				cw.add(fmt.Sprintf("{| c_base := empty_case %d; c_reader_id := false; c_pint_blocked := None; c_prom_accepts := None |}", id))
+			}
 			continue
 		}
 		obsP := fmt.Sprintf("(Some %s)", coqBool(blockedModelled))
@@ -390,7 +337,7 @@ func runC01(args []string) int {
 		if hasAliasOrMerge(docs) {
 			rep.hist("has:alias-or-merge")
 		}
-		cw.add(fmt.Sprintf("{| c_base := %s;\n c_pint_blocked := %s; c_prom_accepts := %s |}", term, obsP, obsQ))
+		cw.add(fmt.Sprintf("{| c_base := %s;\n c_reader_id := %s; c_pint_blocked := %s; c_prom_accepts := %s |}", term, coqBool(readerID), obsP, obsQ))
 	}
 	for _, g := range []*docGen{gv, g1, gm} {
 		for k, v := range g.hist {
@@ -461,4 +408,22 @@ func c01Special(r *rand.Rand) string {
 	})
 	top := pick(r, []string{"groups:\n", "groups:\n", "groups:\n", "---\ngroups:\n", "\"groups\":\n"})
 	return top + group + rule
+}
+
+// rleLong writes runs of at least 64 equal bytes as «c*N» (replays of the reader-stress files stay readable).
+func rleLong(s string) string {
+	var b strings.Builder
+	for i := 0; i < len(s); {
+		j := i
+		for j < len(s) && s[j] == s[i] {
+			j++
+		}
+		if j-i >= 64 {
+			fmt.Fprintf(&b, "«%c*%d»", s[i], j-i)
+		} else {
+			b.WriteString(s[i:j])
+		}
+		i = j
+	}
+	return b.String()
 }
